@@ -30,7 +30,7 @@ CLIENT_CLASS = 'C14ClientBase'
 _counter = itertools.count()
 
 RULE = ('hand seeds harness/specs/c14_*.stone (every feature of the quantifier, deterministic) + generated specs '
-        '(specgen preset routes, loadable; route arguments re-drawn among visible structs / unions / aliases of them / '
+        '(specgen preset routes; route arguments re-drawn among visible structs / unions / aliases of them / '
         'Void, `style` attribute upload / download / rpc through a stone_cfg.Route schema) x every route version x '
         'random valid argument values (harness.values.ValueGen) in random positional / keyword splits, optional '
         'parameters given or omitted; plus ill-formed calls (unknown / duplicate / missing / surplus arguments) for '
@@ -129,6 +129,20 @@ def suite_fmt(ck):
                     ck.disagree('decl.pyclient.fmt_reference', {'name': n}, real[:2], ref)
                 else:
                     ck.agree('decl.pyclient.fmt_reference')
+    # fmt_obj = pprint.pformat(width=1) on string defaults: does it wrap (then emit() refuses the line)
+    import pprint
+    texts = ['', ' ', 'a', 'a b', 'ab ', ' ab', 'a\n', 'a\nb', 'a\n ', 'a\r\n', 'a\r\nb', 'a\r\n ', '\r\n', '\n\n', 'a\tb', 'a \t', 'é b',
+             'two words', "it's\"q\"", 'x\x0by', 'x\x0c', 'x\x1cy', 'x\x1f', 'x\x1fy', 'a\rb', 'a\r']
+    for _ in range(ck.scale(300, 3000)):
+        texts.append(''.join(rng.choice('ab \t\n\r_é"\'\x0b\x1d') for _ in range(rng.randint(0, 6))))
+    rep = ck.driver([{'op': 'decl.pyclient.wraps', 'texts': texts}])[0]
+    for t, got in zip(texts, rep['out']):
+        real = '\n' in pprint.pformat(t, width=1)
+        ck.case(('wraps', t))
+        if real == got == RouteView.pformat_wraps(t):
+            ck.agree('decl.pyclient.pformat_wraps')
+        else:
+            ck.disagree('decl.pyclient.pformat_wraps', {'text': t}, real, [got, RouteView.pformat_wraps(t)])
     rep = ck.driver([{'op': 'decl.pyclient.keywords'}])[0]
     from stone.backends import python_helpers
     if sorted(rep['python']) == sorted(keyword.kwlist) and sorted(rep['reserved']) == sorted(python_helpers._reserved_keywords):
@@ -271,14 +285,32 @@ class RouteView:
     def label(self):
         return '%s.%s:%d' % (self.ns, self.name, self.version)
 
+    @staticmethod
+    def pformat_wraps(text):
+        """own reading of pprint: a string is wrapped after whitespace that is followed by something else and at inner
+        line breaks (ASCII)"""
+        ws, brk = ' \t\n\r\x0b\x0c\x1c\x1d\x1e\x1f', '\n\r\x0b\x0c\x1c\x1d\x1e'
+        i, n = 0, len(text)
+        while i + 1 < n:
+            a, b = text[i], text[i + 1]
+            if a == '\r' and b == '\n':
+                if i + 2 < n:
+                    return True
+            elif a in brk or (a in ws and b not in ws):
+                return True
+            i += 1
+        return False
+
     IMPORT_CAUSES = ('field-named-self', 'upload-route-field-named-f', 'download-route-field-named-download_path',
                      'field-named-like-python-keyword', 'tag-default-declared-through-alias-of-another-namespace')
 
     def causes(self):
         """independent explanations (from the spec alone) of why this route's method may be broken"""
-        from stone.backends.python_helpers import fmt_namespace, fmt_class
+        from stone.backends.python_helpers import fmt_namespace
         out = []
         names = [f.name for f in self.fields] + (['arg'] if self.kind == 'union' else [])
+        if any(isinstance(f.default, str) and not f.nullable and self.pformat_wraps(f.default) for f in self.fields):
+            out.append('string-default-with-blank')
         if 'self' in names:
             out.append('field-named-self')
         if self.upload and 'f' in names:
@@ -291,7 +323,9 @@ class RouteView:
             d = f.default
             if type(d).__name__ == 'TagRef' and type(d.union_data_type).__name__ == 'Alias':
                 al, un = d.union_data_type, unalias(d.union_data_type)
-                if fmt_namespace(al.namespace.name) != fmt_namespace(un.namespace.name) or fmt_class(al.name) != al.name:
+                # python_types binds the class alias as fmt_class(alias name) in the ALIAS's module; the client looks
+                # for it in the UNION's module
+                if fmt_namespace(al.namespace.name) != fmt_namespace(un.namespace.name):
                     out.append('tag-default-declared-through-alias-of-another-namespace')
                     break
         if not self.ns_has_types:
@@ -417,6 +451,8 @@ def gen_error_kind(ses):
         return 'unhandledArgType'
     if 'There is a name conflict' in e:
         return 'nameConflict'
+    if 'String to emit cannot contain newline' in e:
+        return 'multilineDefault'
     return ''
 
 
@@ -487,12 +523,24 @@ def judge_module(ses):
             # nullable crashes the backend. The property and its quantifier say nothing about error types: recorded, not judged.
             ses.ck.stat('module.not_judged.error_type_without_fields_crashes_docstring_generation')
             return problems
+        cause = 'unexplained'
+        if kind == 'multilineDefault' and any('string-default-with-blank' in v.causes() for v in legal):
+            cause = 'string-default-with-blank'
         problems.append(('python_client crashes on a spec whose routes all have struct / union / Void arguments',
-                         {'kind': 'client-generation-crash', 'error': (ses.error or '').split(':')[0]},
-                         {'error': ses.error}))
+                         {'kind': 'client-generation-crash', 'cause': cause},
+                         {'error': ses.error, 'routes': [v.label() for v in legal if 'string-default-with-blank' in v.causes()]}))
         return problems
     if ses.status == 'client-import-fails':
         causes = sorted({c for v in legal for c in v.causes() if c in RouteView.IMPORT_CAUSES})
+        if len(causes) > 1:
+            # several candidates in one spec: keep the ones that fit what the interpreter says (class and named parameter)
+            err = ses.error or ''
+            fits = {'upload-route-field-named-f': "duplicate argument 'f'" in err,
+                    'download-route-field-named-download_path': "duplicate argument 'download_path'" in err,
+                    'field-named-self': "duplicate argument 'self'" in err,
+                    'field-named-like-python-keyword': ses.import_exc == 'SyntaxError' and 'duplicate argument' not in err,
+                    'tag-default-declared-through-alias-of-another-namespace': ses.import_exc == 'AttributeError'}
+            causes = [c for c in causes if fits.get(c)] or causes
         problems.append(('the generated client module cannot be imported next to the python_types output',
                          {'kind': 'client-module-import', 'exception': ses.import_exc,
                           'cause': causes[0] if len(causes) == 1 else ('unexplained' if not causes else '+'.join(causes))},
@@ -1079,21 +1127,31 @@ def adapt_model(model, rng):
         cfg.files = []
         route_schema = [cfg.defs[-1]]
     schema = route_schema[0]
-    # STEER: a union-typed route attribute makes python_types print `TagRef(...)` into the module (NameError on
-    # import, C09's subject): keep primitive attributes only
-    def _prim_attr(f):
-        t = f.type
-        while t is not None:
-            d = sg.find_def(model, t.ns or 'stone_cfg', t.name)
+    def _base(nsn, t):
+        """the built-in type name a TypeRef resolves to through aliases, or None for a user-defined type"""
+        for _ in range(30):
+            d = sg.find_def(model, t.ns or nsn, t.name)
             if d is None:
-                return t.name in sg.PRIMITIVES and t.name not in ('Timestamp', 'Bytes')
+                return t.name
             if d.kind != 'alias':
-                return False
-            t = d.type
-        return False
-    dropped = {f.name for f in schema.fields if not _prim_attr(f)}
+                return None
+            nsn, t = t.ns or nsn, d.type
+        return None
+    # STEER: python_types prints a union-tag route attribute as `<ns>.<Union>.<tag>` without importing <ns> into the
+    # module of the route (NameError on import: python_types' subject, C09): primitive attributes only
+    dropped = {f.name for f in schema.fields if _base('stone_cfg', f.type) is None}
     schema.fields = [f for f in schema.fields if f.name != 'style' and f.name not in dropped] + \
         [sg.Field('style', sg.TypeRef('String'), default='rpc')]
+    # STEER: python_client still prints string defaults with pprint.pformat(width=1), which wraps at blanks; emit() then
+    # asserts and the whole spec has no client (listed finding c14-string-default-with-blank, seed c14_blankdefault_*).
+    # Most generated specs are kept clear of it so that the rest of the backend is reached.
+    for ns in model.namespaces:
+        for d in ns.defs:
+            if getattr(d, 'kind', None) in ('struct', 'struct_patch'):
+                for f in d.fields:
+                    if isinstance(f.default, str) and any(c.isspace() for c in f.default) and rng.random() < 0.9 and \
+                            _base(ns.name, f.type) == 'String' and 'pattern' not in f.type.kwargs:
+                        f.default = ''.join('_' if c.isspace() else c for c in f.default)
     for ns in model.namespaces:
         for d in ns.defs:
             if getattr(d, 'kind', None) != 'route':
@@ -1126,7 +1184,7 @@ def spec_sources(ck, n_generated):
     out = [('seed:' + k, v) for k, v in hand_seed_sets().items()]
     from harness import specgen as sg
     for i in range(n_generated):
-        model = sg.gen_model(ck.rng, dict(base='routes', py_loadable=True, name='routes+loadable'))
+        model = sg.gen_model(ck.rng, 'routes')
         try:
             model = adapt_model(model, ck.rng)
             specs = sg.render(model, None)
